@@ -192,6 +192,10 @@ def steer(pkg, rng, with_dates):
     first.steps.append(("steerflags", M.Union((("SteerFlags", M.Named("SteerFlags")), ("int32", M.Prim("int32"))), nullable=rng.chance(0.5)), True))
     first.steps.append(("steerenum", M.Union((("SteerEnum", M.Named("SteerEnum")), ("bool", M.Prim("bool")), ("float64", M.Prim("float64"))), nullable=False), True))
     first.steps.append(("steerrec", M.Named("SteerRec"), True))
+    # a generic record whose type argument is what makes a field omittable
+    pkg.files[fn].append(M.Record("SteerGen", ("T", "U"), [("id", M.Prim("int32")), ("payload", M.TParam("T")), ("extra", M.Vec(M.TParam("U")))]))
+    first.steps.append(("steergen", M.Named("SteerGen", (M.Opt(M.Prim("int32")), M.Opt(M.Prim("string")))), True))
+    first.steps.append(("steergenu", M.Named("SteerGen", (M.Union((("int32", M.Prim("int32")), ("string", M.Prim("string"))), nullable=True), M.Prim("float64"))), True))
     if with_dates:
         first.steps.append(("steerdate", M.Union((("string", M.Prim("string")), ("date", M.Prim("date"))), nullable=False), True))
         first.steps.append(("steertime", M.Union((("time", M.Prim("time")), ("int64", M.Prim("int64")), ("datetime", M.Prim("datetime"))), nullable=True, explicit=False), True))
